@@ -78,6 +78,15 @@ def run(prop, tier, seed, scratch, replay=None):
         rep2[k] += rep3[k]
     for k, v in (rep3.get("extra") or {}).items():
         rep2["extra"][k] = rep2["extra"].get(k, 0) + v
+    st = None
+    # C03 asserts at issue time, on the step's own prescription (first index issued), not on the final observation
+    sf = {"C08": ["accts", "used", "imp", "sync"], "C03": ["step.a.first"], "C05": ["gate", "mayHoldClear", "locked"]}.get(prop)
+    if sf:
+        where = (lambda tr: len(tr.get("steps") or []) >= 10) if prop != "C03" else \
+                (lambda tr: tr.get("steps") and tr["steps"][-1]["op"] == "NextAddr" and tr["steps"][-1]["ret"] == "ok"
+                 and tr["steps"][-1]["a"].get("oc") == "commit")
+        st = vlib.binding_selftest(scratch, drv, lambda i, o: ["-in", i, "-out", o, "-prop", prop, "-seed", seed, "-workers", vlib.NCPU],
+                                   simtr, sf, n=48, where=where)
     res.coverage = {
         "states": bfs["distinct"], "transitions": bfs["generated"],
         "traces_validated_against_impl": rep["traces"] + rep2["traces"],
@@ -96,6 +105,8 @@ def run(prop, tier, seed, scratch, replay=None):
         "diverged_behaviours": rep["extra"].get("diverged_behaviours", 0) + rep2["extra"].get("diverged_behaviours", 0),
     }
     res.coverage["transitions_per_operation"] = cov
+    if st:
+        res.coverage["binding_selftest"] = st
     if prop == "C10":
         res.coverage["faults_injected"] = rep["extra"].get("faults_injected", 0) + rep2["extra"].get("faults_injected", 0)
     res.assumptions = [
